@@ -84,9 +84,12 @@ def check(ctx):
         # the limits are 2-sequences (Bounds.__post_init__ rejects every other length - clause C05-f): (M[0], M[1])
         return TupV([Num(nf.fn("[]", nf.sym("self.bounds." + nm), nf.const(k))) for k in (0, 1)])
 
-    def run_fit(x):
+    def run_fit(x, tau_value=None):
         sv = Inst(fc, {"bounds": Inst(bc, {"M": pair("M"), "tau": pair("tau")}, "self.bounds")}, "self")
-        x.enter(m, x.symbolic_args(m), sv, None, fc)
+        bound = x.symbolic_args(m)
+        if tau_value is not None:
+            bound["tau"] = tau_value()
+        x.enter(m, bound, sv, None, fc)
         # evaluate the fitted model the way curve_fit does - f(x, *params) with one parameter per entry of the
         # first guess - inside the same trace partition, so that its branches agree with fit()'s own
         cfe = [e for e in x.events if e.kind == "ext_call" and e.data["callee"] == "scipy.optimize.curve_fit"]
@@ -98,14 +101,18 @@ def check(ctx):
             return x.call(cfe[0].data["args"]["f"], args, {}, cfe[0].node, None)
         return None
 
-    paths = it.explore(run_fit)
-    rets = returns(paths)
+    # the two documented calls: tau left at None (both parameters fitted) and a tau supplied (a number). However the
+    # function tells them apart - `tau is None`, a type test - every returning partition of either call has to do what
+    # that call is documented to do
+    from ..values import NoneV as _NoneV
+
     arms = []
-    for p in rets:
-        arm = next((c for _k, c, d in p.decisions if d == "tau is None"), None)
-        arms.append((arm, p))
+    it.not_none = {"tau"}  # in the second call tau is a number
+    for free, tv in ((True, lambda: _NoneV()), (False, lambda: Num(nf.sym("tau")))):
+        for p in returns(it.explore(lambda x, tv=tv: run_fit(x, tv))):
+            arms.append((free, p))
     if {a for a, _p in arms} != {True, False}:
-        raise AnalysisError("ForecasterOnePhase.fit: expected the two arms `tau is None` / given")
+        raise AnalysisError("ForecasterOnePhase.fit: one of the two calls (tau omitted / tau supplied) never returns")
     reg = bc.lookup("regularize_initial_guess")
     for free_tau, p in arms:
         other = [("" if c else "not ") + d[:50] for _k, c, d in p.decisions if d != "tau is None"]
@@ -126,6 +133,16 @@ def check(ctx):
             raise AnalysisError(f"fit [{tag}]: expected one curve_fit call")
         a = cf[0].data["args"]
         where = f"{m.file}:{cf[0].line}"
+        # the container of the first guess can hold the (float) bounds the regulariser stores into it: a Python list, or an
+        # array with a floating dtype - np.array([data[-1] * 2, ...]) of integer data is an integer array, and an item
+        # store truncates a bound or a mid-point towards zero (the guess then lies outside the bounds)
+        for e_ in [e for e in p.events if e.kind == "int_call" and e.data["callee"] == reg.qualname]:
+            g_ = e_.data["args"].get("guess")
+            ctx.check(
+                not (isinstance(g_, TupV) and g_.arr and not getattr(g_, "float_dtype", False)), "C05-f", reg.qualname + f":guess container [{tag}]", f"{m.file}:{e_.line}",
+                "the first guess is kept in a container that stores floats unchanged (a list, or an array created with a floating dtype)",
+                signature="guess container inherits the data's dtype",
+            )
         # C05-d bounds present, p0 regularised
         b = a.get("bounds")
         if free_tau:
